@@ -94,7 +94,12 @@ def run(prog, chk):
         if b.label and b.label.get("k") == "case" and b.label.get("v") == 101:
             done = b.id
     sets = [(b.id, i) for (b, i, r, n) in gp.eval_sites("asg") if const(n.get("rhs")) == empty and _ends(n.get("lhs"), "_error_code")]
-    if not sets or done is None:
+    # the same decision written as a comparison: `x == SQLITE_DONE` (true edge) / `x != SQLITE_DONE` (false edge)
+    done_edges = cfgq.guard_edges(gp, lambda c: (lambda t: ("true" if t == ("==", 101) else ("false" if t == ("!=", 101) else None)))(
+        cfgq.cmp_test(c, lambda e: path(strip(e)) is not None or strip(e).get("k") in ("call", "asg"))))
+    if sets and done is None and done_edges and all(cfgq.must_pass_edge(gp, s[0], done_edges) for s in sets):
+        r1.ok("empty-loop-origin", "CIF_EMPTY_LOOP originates only where the first step returned SQLITE_DONE")
+    elif not sets or done is None:
         r1.violation(gp.file, gp.name, gp.line, "empty-loop-origin", "CIF_EMPTY_LOOP is not set under `case SQLITE_DONE`")
     else:
         okk = all(cfgq.must_precede(gp, s, [(done, -1)]) or s[0] == done for s in sets)
